@@ -77,13 +77,28 @@ func (s *STUNConn) ReadFrom(payload []byte) (n int, addr net.Addr, err error) {
 		return n, s.nextConn.RemoteAddr(), nil
 	}
 
-	// Then read from the nextConn, appending to our buff
+	// Then read from the nextConn, appending to our buff. A Read may return
+	// data together with an error (io.EOF behind the last bytes): the data
+	// still counts, and a frame it completes is returned before the error.
 	n, err = s.nextConn.Read(payload)
+	if n > 0 {
+		s.buff = append(s.buff, append([]byte{}, payload[:n]...)...)
+	}
 	if err != nil {
+		if n > 0 {
+			size, frameErr := consumeSingleTURNFrame(s.buff)
+			if frameErr == nil {
+				copy(payload, s.buff[:size])
+				s.buff = s.buff[size:]
+
+				return size, s.nextConn.RemoteAddr(), nil
+			} else if errors.Is(frameErr, errInvalidTURNFrame) {
+				return 0, nil, frameErr
+			}
+		}
+
 		return 0, nil, err
 	}
-
-	s.buff = append(s.buff, append([]byte{}, payload[:n]...)...)
 
 	return s.ReadFrom(payload)
 }
